@@ -94,6 +94,20 @@ theorem C18_server_no_double_service (C : Rx.Consts) (sizes : Nat → Nat) (n a 
     (hnb : ∀ x ∈ t, x.lastCall ≠ some b) : ∀ x ∈ t, x.lastCall ≠ some a :=
   Srv.server_no_double_service C sizes n a b hn ha hb hab s t hrun hlast hall hready hnb
 
+/-- **C18, first sentence, in the property's own words**: `a` has just been served; over any stretch of consecutive
+    iterations with an unchanged connection list (in reachable states: `GInv`), if the well-behaved client at position
+    `b ≠ a` has had a *complete call waiting* the whole time - all its bytes arrived, a call not yet consumed - and has
+    not been served, then `a` has not been served a second time. Readiness is no longer a hypothesis: it follows from the
+    waiting call (`Rx.poll_complete`). -/
+theorem C18_waiting_call_not_overtaken (C : Rx.Consts) (hstep : 0 < C.step) (sizes : Nat → Nat) (n a b : Nat) (hn : 0 < n)
+    (ha : a < n) (hb : b < n) (hab : b ≠ a) (s : Srv.S) (t : List Srv.S) (hrun : Srv.IsRun C sizes s t)
+    (hlast : s.lastCall = some a)
+    (hall : ∀ x ∈ s :: t, x.listenQ = [] ∧ x.conns.length = n)
+    (hinv : ∀ x ∈ (s :: t).dropLast, Srv.GInv C x)
+    (hwait : ∀ x ∈ (s :: t).dropLast, ∃ c, x.conns[b]? = some c ∧ c.good = true ∧ c.fut = [] ∧ c.k < c.frames.length)
+    (hnb : ∀ x ∈ t, x.lastCall ≠ some b) : ∀ x ∈ t, x.lastCall ≠ some a :=
+  Srv.waiting_call_not_overtaken C hstep sizes n a b hn ha hb hab s t hrun hlast hall hinv hwait hnb
+
 /-- **Bounded waiting on the server loop**: over such a stretch a connection with a call waiting at every scan
     is served after at most `n - 1` iterations (other calls). -/
 theorem C18_server_phase_bound (C : Rx.Consts) (sizes : Nat → Nat) (n b : Nat) (hn : 0 < n) (hb : b < n)
